@@ -21,7 +21,7 @@ func (l Logr) AddAgentInput(AgentType, AgentID, User, TaskID, Input string, time
 
 	// check if we don't have a path traversal
 	path := filepath.Clean(DemonLogFile)
-	if !strings.HasPrefix(path, DemonPath) {
+	if path != filepath.Clean(DemonPath) && !strings.HasPrefix(path, filepath.Clean(DemonPath)+"/") {
 		logger.Error("File didn't started with agent loot path. abort")
 		return
 	}
@@ -55,7 +55,7 @@ func (l Logr) AddAgentRaw(AgentID, Raw string) {
 
 	// check if we don't have a path traversal
 	path := filepath.Clean(DemonLogFile)
-	if !strings.HasPrefix(path, DemonPath) {
+	if path != filepath.Clean(DemonPath) && !strings.HasPrefix(path, filepath.Clean(DemonPath)+"/") {
 		logger.Error("File didn't started with agent loot path. abort")
 		return
 	}
@@ -87,7 +87,7 @@ func (l Logr) DemonAddOutput(DemonID string, Output map[string]string, time stri
 
 	// check if we don't have a path traversal
 	path := filepath.Clean(DemonLogFile)
-	if !strings.HasPrefix(path, DemonPath) {
+	if path != filepath.Clean(DemonPath) && !strings.HasPrefix(path, filepath.Clean(DemonPath)+"/") {
 		logger.Error("File didn't started with agent loot path. abort")
 		return
 	}
@@ -140,7 +140,7 @@ func (l Logr) DemonAddDownloadedFile(DemonID, FileName string, FileBytes []byte)
 
 	// check if we don't have a path traversal
 	path := filepath.Clean(DemonDownload)
-	if !strings.HasPrefix(path, DemonDownloadDir) {
+	if path != filepath.Clean(DemonDownloadDir) && !strings.HasPrefix(path, filepath.Clean(DemonDownloadDir)+"/") {
 		logger.Error("File didn't started with agent download path. abort")
 		return
 	}
@@ -183,7 +183,7 @@ func (l Logr) DemonSaveScreenshot(DemonID, Name string, BmpBytes []byte) error {
 
 	// check if we don't have a path traversal
 	path := filepath.Clean(DemonScreenshot)
-	if !strings.HasPrefix(path, DemonScreenshotDir) {
+	if path != filepath.Clean(DemonScreenshotDir) && !strings.HasPrefix(path, filepath.Clean(DemonScreenshotDir)+"/") {
 		logger.Error("File didn't started with agent screenshot path. abort")
 		return errors.New("file didn't started with agent screenshot path. abort")
 	}
